@@ -690,6 +690,9 @@ func (s *chainState) block(n int, next func(cur *obs) *txCase) bool {
 				for _, l := range ongLogs(rc) {
 					ls = append(ls, fmt.Sprintf("%s -> %s : %s", l.From.Hex(), l.To.Hex(), l.Amount))
 				}
+				if len(ls) > 16 {
+					ls = append(append(append([]string{}, ls[:8]...), fmt.Sprintf("... %d more ...", len(ls)-12)), ls[len(ls)-4:]...)
+				}
 				extra["ong_transfer_logs"] = ls
 				extra["used_gas"] = rc.GasUsed
 			}
@@ -857,7 +860,14 @@ func (s *chainState) judge(a *applied, pre, post *obs, wit func(map[string]inter
 				burned.Add(burned, l.Amount)
 			}
 		}
-		if burned.Sign() > 0 && new(big.Int).Sub(pre.total, post.total).Cmp(burned) == 0 {
+		lost := new(big.Int).Sub(pre.total, post.total)
+		single := false // nested frames of one contract each log the same balance; only one of them destroys it
+		for _, l := range logs {
+			if _, alive := post.acct[l.From]; l.From == l.To && !alive && l.Amount.Cmp(lost) == 0 {
+				single = true
+			}
+		}
+		if burned.Sign() > 0 && (lost.Cmp(burned) == 0 || single) {
 			cls = "selfdestruct-to-self"
 		} else if sdSelf && selfLog {
 			cls = "selfdestruct-to-self+" + shape
